@@ -27,8 +27,15 @@ int main(int argc, char** argv) {
     std::string dev = scratch + "/DEV_"; ShimPlan base; memset(&base, 0, sizeof base); base.active = 1; snprintf(base.prefix, sizeof base.prefix, "%s", dev.c_str()); base.capacity = -1;
     struct V { std::string sig, obj, plan, detail; }; std::vector<V> viols; std::map<std::string, size_t> outcomes; size_t evals = 0, injectedRuns = 0; std::vector<std::string> samples;
     FILE* f = nullptr; std::string perObject;
+    // "over-source": the object is LOADED from the device path, edited, and saved over the file it came from
+    objects.push_back("over-source");
     for (auto& ok : objects) {
-        C3D c; buildObject(c, ok); std::string path = dev + ok + ".c3d";
+        std::unique_ptr<C3D> holder; std::string path = dev + ok + ".c3d"; std::string original;
+        if (ok == "over-source") {
+            C3D seed; buildObject(seed, "medium"); vf_plan = base; vf_plan.active = 0; seed.write(path); readAll(path, original);
+            holder.reset(new C3D(path)); Param q("EDITED"); q.set(std::vector<int>() = {1, 2, 3}); holder->parameter("AFTERLOAD", q);
+        } else { holder.reset(new C3D()); buildObject(*holder, ok); }
+        C3D& c = *holder;
         vf_plan = base; vf_shim_reset(); std::string what; Outcome oc = guarded([&] { c.write(path); }, &what);
         std::string good; readAll(path, good); long nWrites = vf_stats.writeCalls; long size = (long)good.size();
         if (oc != OK || size < 512) { viols.push_back({"harness/fault_free_save_failed", ok, "none", what}); continue; }
@@ -49,7 +56,8 @@ int main(int argc, char** argv) {
         }
         for (auto& pl : plans) {
             if (!one.empty() && one != ok + ":" + pl.text) continue;
-            unlink(path.c_str()); vf_plan = pl.p; vf_shim_reset(); std::string w2; Outcome o2 = guarded([&] { c.write(path); }, &w2); long inj = vf_stats.injected;
+            unlink(path.c_str()); if (ok == "over-source") { vf_plan.active = 0; FILE* fr = fopen(path.c_str(), "wb"); fwrite(original.data(), 1, original.size(), fr); fclose(fr); }
+            vf_plan = pl.p; vf_shim_reset(); std::string w2; Outcome o2 = guarded([&] { c.write(path); }, &w2); long inj = vf_stats.injected;
             vf_plan.active = 0; std::string got; readAll(path, got); evals++; if (inj) injectedRuns++;
             std::string cls = pl.text.substr(0, pl.text.find_first_of("=0123456789")); while (!cls.empty() && (cls.back() == '-' || cls.back() == '/')) cls.pop_back();
             if (pl.text.compare(0, 10, "open-fails") == 0) cls = "open-fails"; if (pl.text.find("+") != std::string::npos) cls = "pair:" + cls;
